@@ -139,4 +139,15 @@ PROPS["C07"] = {
     "assumptions": ["keyspace names are ASCII", "reconnected pool connections re-run USE (connPool.connect) - exercised only through session creation here"],
 }
 
+PROPS["C16"] = {
+    "module": "CqlVerif.Props.C16",
+    "streams": [{"name": "reconn", "quick": 2000, "thorough": 200000}, {"name": "topo", "quick": 150, "thorough": 5000, "timeout": 7200}],
+    "shrink": False,
+    "claim": "Lean theorems delay_bounds (all base/max with 0<base<=max, base<2^44 ns, all attempt counts and jitters, Go int64 wrap-around modelled) + overflow_witness for the excluded range, reset_restarts, views_agree / refresh_follows_peers (cluster view, load balancer and session pools equal the last peers table for every refresh / fail-over history), outage_iff_not_connected; tied to reconnpolicy.go by a differential stream on the public API and to cluster.go/session.go/lb.go by the topo stream (real Cluster+LB+Session wired as Proxy.Connect, 40 ms refresh window, fakecass membership changes, child process so listener crashes are observed)",
+    "note": "trusted: Lean kernel, hand-written models + correspondence; timers are real-time in the tie (generous margins) and event order in the model; heartbeat/idle-timeout detection, readiness endpoint and pooled-connection reconnection are exercised by the storm/e2e streams only; negative base delays are outside (delay_bounds hypothesis)",
+    "rule": "reconn: base x max grid incl. 0, negatives, base>max, powers of two around the 2^44/2^45 overflow boundary, random 63-bit values; sequences of NextDelay/Reset/Clone up to 70 calls; the real delay must be the model's for one of the 30 jitters. topo: 1-3 initial nodes, joins, leaves, sessions on existing/non-existent keyspaces, control-connection drops, probes of the load balancer's plan and of session routing; distinct = distinct op lists",
+    "trusted_base": [KERNEL, DRIVER, HARNESS, "Model/Reconnect.lean, Model/Cluster.lean hand-written"],
+    "assumptions": ["0 < base <= max and base < 2^44 ns for the bounds theorem", "the peers table read by a refresh has no duplicate hosts"],
+}
+
 NOT_APPLICABLE = {}
